@@ -237,9 +237,15 @@ impl FixedScen {
                 amount: vec![coin(p.get(2).and_then(|x| x.parse().ok()).unwrap_or(0), p.get(3).unwrap_or(&"ucosm").to_string())],
             }
             .into(),
-            "sx" => call(&ExecuteMsg::Execute { proposal_id: num(1) }),
-            "sc" => call(&ExecuteMsg::Close { proposal_id: num(1) }),
-            "sv" => call(&ExecuteMsg::Vote { proposal_id: num(1), vote: parse_vote(p.get(2).unwrap_or(&"veto")) }),
+            // self-calls are built with the `packages/cw3` helper (`Cw3Contract`), so the helper is inside the tie.
+            // (`Cw3Contract::proposal` is not usable here: it always emits the cw3 spec's `earliest` field, which
+            // both multisigs of this repository reject as an unknown field.)
+            "sx" => cw3::Cw3Contract(self.me.clone()).execute(num(1)).unwrap_or_else(|_| call(&ExecuteMsg::Execute { proposal_id: num(1) })),
+            "sc" => cw3::Cw3Contract(self.me.clone()).close(num(1)).unwrap_or_else(|_| call(&ExecuteMsg::Close { proposal_id: num(1) })),
+            "sv" => {
+                let v = parse_vote(p.get(2).unwrap_or(&"veto"));
+                cw3::Cw3Contract(self.me.clone()).vote(num(1), v).unwrap_or_else(|_| call(&ExecuteMsg::Vote { proposal_id: num(1), vote: v }))
+            }
             "sp" => call(&ExecuteMsg::Propose {
                 title: "self".into(),
                 description: "self".into(),
@@ -811,6 +817,16 @@ impl FixedScen {
                 _ => format!("nc:n{}", rng.below(3)),
             };
             v.push(m);
+        }
+        // the same message more than once (adjacent or not): "exactly as proposed" includes repeats
+        if !v.is_empty() && rng.chance(1, 5) {
+            let i = rng.below(v.len() as u64) as usize;
+            let m = v[i].clone();
+            if rng.chance(2, 3) {
+                v.insert(i, m);
+            } else {
+                v.push(m);
+            }
         }
         v.join(",")
     }
